@@ -626,7 +626,24 @@ func (e *Env) RRestoreIdent() {
 		nObj = info.Defs[fd.Type.Params.List[0].Names[0]]
 	}
 	isNPath := func(x ast.Expr) bool { p, ok := c.Path(x, nObj); return ok && p == "Path" }
-	isRPath := func(x ast.Expr) bool { p, ok := c.Path(x, recv); return ok && p == "Path" }
+	// the restorer's own path, without the vendor prefix (the decorator strips it from every path
+	// it assigns and from its own): stripVendor(r.Path), directly or through a local
+	var isRPath func(x ast.Expr) bool
+	isRPath = func(x ast.Expr) bool {
+		x = ast.Unparen(x)
+		if call, ok := x.(*ast.CallExpr); ok && len(call.Args) == 1 {
+			if fn := c.Callee(call); fn != nil && fn.Name() == "stripVendor" && fn.Pkg() != nil && fn.Pkg().Path() == load.PkgDecorator {
+				p, ok := c.Path(call.Args[0], recv)
+				return ok && p == "Path"
+			}
+		}
+		if id, ok := x.(*ast.Ident); ok {
+			if d := singleDef(info, fd, id); d != nil {
+				return isRPath(d)
+			}
+		}
+		return false
+	}
 	// the function and, when it ends in `return r.build(…)`, the method that builds the selector
 	roots := []ast.Node{fd.Body}
 	paramArg := map[types.Object]types.Object{} // parameter of that method → the variable it is handed
@@ -712,7 +729,7 @@ func (e *Env) RRestoreIdent() {
 	})
 	pos := e.Prog.Pos(fd.Pos())
 	e.Run.Check("R-IDENT", "restoreIdent takes the qualifier from the path→name table for non-local paths", pos, lookup && localCmp,
-		fmt.Sprintf("the identifier used for the selector's X must be assigned from r.packageNames[n.Path] (found: %v) and n.Path must be compared with r.Path (found: %v)", lookup, localCmp))
+		fmt.Sprintf("the identifier used for the selector's X must be assigned from r.packageNames[n.Path] (found: %v) and n.Path must be compared with the restorer's own path without its vendor prefix, stripVendor(r.Path) (found: %v): the decorator strips the prefix from every path it assigns, a restorer for a vendored package that compares with the raw path takes the package's own identifiers for foreign ones and makes the package import itself", lookup, localCmp))
 	e.Run.Check("R-IDENT", "restoreIdent leaves dot-imported names bare", pos, dot, "the looked-up name must be compared with \".\"")
 	e.Run.Check("R-IDENT", "restoreIdent rejects a path on a declaring position", pos, avoidCheck, "expected the avoid-table check to panic before an *ast.Ident-typed position receives a selector")
 }
@@ -908,8 +925,8 @@ func (e *Env) RDiscovery() {
 	}
 	if identArm != nil {
 		checkStores(identArm, "every identifier with a non-empty, non-local path is recorded as in use and required", map[string]string{
-			"packagesInUse[n.Path] = true":   `n.Path != "" && n.Path != r.Path`,
-			"importsRequired[n.Path] = true": `n.Path != "" && n.Path != r.Path`,
+			"packagesInUse[n.Path] = true":   `n.Path != "" && n.Path != stripVendor(r.Path)`,
+			"importsRequired[n.Path] = true": `n.Path != "" && n.Path != stripVendor(r.Path)`,
 		})
 	} else {
 		e.Run.Violation("R-DISC", "scan has an *dst.Ident arm", e.Prog.Pos(lit.Pos()), "missing")
@@ -1323,10 +1340,12 @@ func (e *Env) resolveIdentReturns() {
 	check(load.PkgGoast, "goast", []wantReturn{
 		{what: "the Sel of a selector whose X is an undeclared identifier resolves through the file's import table",
 			result: `r.imports(file)[` + selX + `.Name]`,
-			cond:   `res1(r.imports(file)) == nil && ok(parent.(*SelectorExpr)) && parentField == "Sel" && ok(` + selX + `) && ` + selX + `.Obj == nil && ok(r.imports(file)[` + selX + `.Name])`,
+			cond:   `file != nil && res1(r.imports(file)) == nil && ok(parent.(*SelectorExpr)) && parentField == "Sel" && ok(` + selX + `) && ` + selX + `.Obj == nil && ok(r.imports(file)[` + selX + `.Name])`,
 			// a missing name reads as "", which is the default answer
-			alt: `res1(r.imports(file)) == nil && ok(parent.(*SelectorExpr)) && parentField == "Sel" && ok(` + selX + `) && ` + selX + `.Obj == nil`},
-	}, `res1(r.imports(file)) != nil`)
+			alt: `file != nil && res1(r.imports(file)) == nil && ok(parent.(*SelectorExpr)) && parentField == "Sel" && ok(` + selX + `) && ` + selX + `.Obj == nil`},
+		// an isolated node (Decorator.DecorateNode on a declaration or an expression) comes without
+		// its file: the resolver cannot decide and says so instead of dereferencing nil
+	}, `file == nil || res1(r.imports(file)) != nil`)
 }
 
 type wantReturn struct {
@@ -1549,7 +1568,11 @@ func (e *Env) checkReturnsZ(rule string, c *schema.Ctx, fd *ast.FuncDecl, label,
 			e.Run.Violation(rule, label+": "+w.what, e.Prog.Pos(fd.Pos()), "no return of "+pair)
 			continue
 		}
+		facts := typingFacts(got, w.cond, w.alt)
 		under := func(x string) string {
+			if facts != "" {
+				x = "(" + x + ") && " + facts
+			}
 			if w.assume == "" {
 				return x
 			}
@@ -3302,4 +3325,50 @@ func aliasedExcluded(body *ast.BlockStmt, target ast.Node, k string) bool {
 	}
 	visit(body.List)
 	return found
+}
+
+// typingFacts: facts of the language and of go/types about the atoms of the given conditions,
+// as a conjunction both sides of a comparison are put under: a comma-ok type assertion on a map
+// element succeeds only when the key is there (the element of a missing key is the nil interface),
+// and (*types.PkgName).Imported() is never nil.
+func typingFacts(conds ...string) string {
+	seen := map[string]bool{}
+	var facts []string
+	add := func(f string) {
+		if !seen[f] {
+			seen[f] = true
+			facts = append(facts, f)
+		}
+	}
+	for _, cs := range conds {
+		if cs == "" || cs == "*" {
+			continue
+		}
+		g := parseGuard(cs)
+		if !g.ok || g.expr == nil {
+			continue
+		}
+		ast.Inspect(g.expr, func(n ast.Node) bool {
+			switch v := n.(type) {
+			case *ast.CallExpr:
+				if id, ok := v.Fun.(*ast.Ident); ok && id.Name == "ok" && len(v.Args) == 1 {
+					if ta, ok := ast.Unparen(v.Args[0]).(*ast.TypeAssertExpr); ok {
+						if ix, ok := ast.Unparen(ta.X).(*ast.IndexExpr); ok {
+							add("(!" + types.ExprString(v) + " || ok(" + types.ExprString(ix) + "))")
+						}
+					}
+				}
+			case *ast.BinaryExpr:
+				if v.Op == token.NEQ && types.ExprString(v.Y) == "nil" {
+					if call, ok := ast.Unparen(v.X).(*ast.CallExpr); ok && len(call.Args) == 0 {
+						if se, ok := call.Fun.(*ast.SelectorExpr); ok && se.Sel.Name == "Imported" && strings.HasSuffix(types.ExprString(se.X), ".(*types.PkgName)") {
+							add("(" + types.ExprString(v) + ")")
+						}
+					}
+				}
+			}
+			return true
+		})
+	}
+	return strings.Join(facts, " && ")
 }
